@@ -18,7 +18,6 @@ Record sim_modes : Prop := {
   sm_or : forall v, goodo (or_step m1 v) -> or_step m2 v = or_step m1 v;
   sm_last : forall b v, goodo (last_red b m1 v) -> last_red b m2 v = last_red b m1 v;
   sm_short : goodo (short_args m1) -> short_args m2 = short_args m1;
-  sm_neg : forall n, goodo (neg_count m1 n) -> neg_count m2 n = neg_count m1 n;
   sm_loc : forall fs sc x, goodo (locate_m m1 fs sc x) -> locate_m m2 fs sc x = locate_m m1 fs sc x
 }.
 Hypothesis SM : sim_modes.
@@ -70,7 +69,6 @@ Ltac rw_lead :=
   | G : goodo (or_step m1 ?v) |- _ => rewrite (sm_or SM _ G); clear G
   | G : goodo (last_red ?b m1 ?v) |- _ => rewrite (sm_last SM _ _ G); clear G
   | G : goodo (short_args m1) |- _ => rewrite (sm_short SM G); clear G
-  | G : goodo (neg_count m1 ?n) |- _ => rewrite (sm_neg SM _ G); clear G
   | G : goodo (locate_m m1 ?fs ?sc ?x) |- _ => rewrite (sm_loc SM _ _ _ G); clear G
   end.
 Ltac case_lead :=
@@ -286,7 +284,6 @@ Proof.
     + destruct b; [|reflexivity]. destruct v; try discriminate; reflexivity.
     + destruct b; [reflexivity|]. destruct v; try discriminate; reflexivity.
   - destruct m; simpl; congruence.
-  - intros n; unfold neg_count; destruct (n <? 0)%Z; destruct m; simpl; congruence.
   - intros fs sc x; destruct m; simpl; try reflexivity.
     + destruct (loc_eqb (locate false fs sc x) (locate true fs sc x)) eqn:Hl; [|congruence].
       intros _. f_equal.
